@@ -305,6 +305,11 @@ func (c *ConnDest) ValidateAndAddShare(msg *sm.MiningSubmit) (float64, error) {
 	return c.validator.ValidateAndAddShare(msg)
 }
 
+// GetJobDiff returns the difficulty that was in force when the job was announced
+func (c *ConnDest) GetJobDiff(jobID string) (float64, bool) {
+	return c.validator.GetJobDiff(jobID)
+}
+
 func (c *ConnDest) GetLatestJob() (*validator.MiningJob, bool) {
 	return c.validator.GetLatestJob()
 }
